@@ -121,3 +121,59 @@ ENSURES(chunk_at_least_as_large_as_requested, __CPROVER_return_value == 0 || *nu
 ENSURES(chunk_lies_inside_the_used_arena, __CPROVER_return_value == 0 || (1 <= __CPROVER_return_value && __CPROVER_return_value + *numSlots - 1 <= self->last_used_slot && self->last_used_slot < self->data_alloc))
 ENSURES(chunk_is_a_former_hole_or_fresh_space, __CPROVER_return_value == 0 || __CPROVER_return_value == __CPROVER_old(self->last_used_slot) + 1 || (g_stops >= __CPROVER_old(g_stops) + 1))
 ;
+
+/* ---- removing a hole from the index (loop-free; the body the stub array_plus_grid__stopTrackingHole stands for) ------ */
+#define SLOT(m, x, k)   ((m)->data[(x) + (k)])
+#define NB_OK(m, x, k)  ((x) == 0 || (1 <= (x) && (size_t)(x) + (k) <= (m)->last_used_slot))
+#define HS(m, h)        TAGSIZE(m, h)
+#define IS_MEDIUM(m, h) (HS(m, h) >= MediumHoleSize && HS(m, h) < LargeHoleSize)
+#define IS_LARGE(m, h)  (HS(m, h) >= LargeHoleSize)
+#define IS_HUGE(m, h)   (IS_LARGE(m, h) && HS(m, h) > (m)->max_request)
+#define IN_GRID(m, h)   (IS_LARGE(m, h) && !IS_HUGE(m, h))
+#define IS_INDEX(m, h)  (SLOT(m, h, 3) >= 0)
+#define NO_HEAD_IS(m, h) ((size_t)(m)->grid_current != (h) && (size_t)(m)->grid_bottom != (h) && (size_t)(m)->grid_top != (h) && (size_t)(m)->huge_holes != (h) && \
+    (size_t)(m)->medium_hole_list[0] != (h) && (size_t)(m)->medium_hole_list[1] != (h) && (size_t)(m)->medium_hole_list[2] != (h) && \
+    (size_t)(m)->medium_hole_list[3] != (h) && (size_t)(m)->medium_hole_list[4] != (h) && (size_t)(m)->medium_hole_list[5] != (h))
+#define MEDHEAD_OK(m, h, k) ((size_t)(m)->medium_hole_list[k] != (h) || (IS_MEDIUM(m, h) && HS(m, h) == (k) && SLOT(m, h, 1) == 0))
+
+void array_plus_grid__stopTrackingHole_real(struct array_plus_grid *self, node_address h)
+AG_REQ(self)
+__CPROVER_requires(1 <= h && h <= self->last_used_slot && self->last_used_slot < (1ul << 30) && TAGGED(self, h) && 1 <= HS(self, h) && h + HS(self, h) - 1 <= self->last_used_slot && self->data[h + HS(self, h) - 1] == self->data[h])
+/* local footprint of the index structure around h (the developers' assertions in the body, as preconditions) */
+__CPROVER_requires(HS(self, h) < MediumHoleSize || (NB_OK(self, SLOT(self, h, 1), 4) && NB_OK(self, SLOT(self, h, 2), 4) && SLOT(self, h, 1) >= 0 && SLOT(self, h, 2) >= 0))
+__CPROVER_requires(!(IN_GRID(self, h) && IS_INDEX(self, h)) || (NB_OK(self, SLOT(self, h, 3), 4) && NB_OK(self, SLOT(self, h, 4), 4) && SLOT(self, h, 4) >= 0))
+/* list membership is consistent: predecessor / head point to h, successor points back */
+__CPROVER_requires(!(IS_MEDIUM(self, h) || IS_HUGE(self, h) || (IN_GRID(self, h) && !IS_INDEX(self, h))) || SLOT(self, h, 1) == 0 || (size_t)SLOT(self, SLOT(self, h, 1), 2) == h)
+__CPROVER_requires(!IS_MEDIUM(self, h) || SLOT(self, h, 1) != 0 || (size_t)self->medium_hole_list[HS(self, h)] == h)
+__CPROVER_requires(!IS_HUGE(self, h) || SLOT(self, h, 1) != 0 || (size_t)self->huge_holes == h)
+__CPROVER_requires(!(IN_GRID(self, h) && !IS_INDEX(self, h)) || SLOT(self, h, 1) != 0)
+__CPROVER_requires(HS(self, h) < MediumHoleSize || SLOT(self, h, 2) == 0 || (size_t)SLOT(self, SLOT(self, h, 2), 1) == h || (IN_GRID(self, h) && IS_INDEX(self, h)))
+__CPROVER_requires(!(IN_GRID(self, h) && IS_INDEX(self, h)) || (SLOT(self, h, 4) != 0 ? (size_t)SLOT(self, SLOT(self, h, 4), 3) == h : (size_t)self->grid_bottom == h))
+__CPROVER_requires(!(IN_GRID(self, h) && IS_INDEX(self, h)) || (SLOT(self, h, 3) != 0 ? (size_t)SLOT(self, SLOT(self, h, 3), 4) == h : (size_t)self->grid_top == h))
+/* a head refers to h only if h is where that head says (otherwise the structure is already broken) */
+__CPROVER_requires(MEDHEAD_OK(self, h, 0) && MEDHEAD_OK(self, h, 1) && MEDHEAD_OK(self, h, 2) && MEDHEAD_OK(self, h, 3) && MEDHEAD_OK(self, h, 4) && MEDHEAD_OK(self, h, 5))
+__CPROVER_requires((size_t)self->huge_holes != h || (IS_HUGE(self, h) && SLOT(self, h, 1) == 0))
+__CPROVER_requires((size_t)self->grid_bottom != h || (IN_GRID(self, h) && IS_INDEX(self, h) && SLOT(self, h, 4) == 0))
+__CPROVER_requires((size_t)self->grid_top != h || (IN_GRID(self, h) && IS_INDEX(self, h) && SLOT(self, h, 3) == 0))
+__CPROVER_requires((size_t)self->grid_current != h || (IN_GRID(self, h) && IS_INDEX(self, h)))
+/* neighbours are other holes: their pointer slots lie outside h, and predecessor and successor are different holes */
+#define DISJ(m, x, h) ((x) == 0 || (size_t)(x) + 4 < (h) || (size_t)(x) >= (h) + HS(m, h))
+#define FAR(x, y)     ((x) == 0 || (y) == 0 || (size_t)(x) + 4 < (size_t)(y) || (size_t)(y) + 4 < (size_t)(x))
+__CPROVER_requires(HS(self, h) < MediumHoleSize || (DISJ(self, SLOT(self, h, 1), h) && DISJ(self, SLOT(self, h, 2), h) && FAR(SLOT(self, h, 1), SLOT(self, h, 2))))
+__CPROVER_requires(!(IN_GRID(self, h) && IS_INDEX(self, h)) || (DISJ(self, SLOT(self, h, 3), h) && DISJ(self, SLOT(self, h, 4), h) && FAR(SLOT(self, h, 3), SLOT(self, h, 4)) && FAR(SLOT(self, h, 2), SLOT(self, h, 3)) && FAR(SLOT(self, h, 2), SLOT(self, h, 4))))
+__CPROVER_requires(HS(self, h) < MediumHoleSize || ((size_t)SLOT(self, h, 1) != h && (size_t)SLOT(self, h, 2) != h))
+__CPROVER_requires(!(IN_GRID(self, h) && IS_INDEX(self, h)) || ((size_t)SLOT(self, h, 3) != h && (size_t)SLOT(self, h, 4) != h))
+/* the live slot is not a pointer slot of h or of a neighbouring hole */
+__CPROVER_requires(ghost_g <= self->last_used_slot && (ghost_g < h || ghost_g >= h + HS(self, h)))
+__CPROVER_requires(HS(self, h) < MediumHoleSize || ((SLOT(self, h, 1) == 0 || ghost_g < (size_t)SLOT(self, h, 1) || ghost_g > (size_t)SLOT(self, h, 1) + 4) && (SLOT(self, h, 2) == 0 || ghost_g < (size_t)SLOT(self, h, 2) || ghost_g > (size_t)SLOT(self, h, 2) + 4)))
+__CPROVER_requires(!(IN_GRID(self, h) && IS_INDEX(self, h)) || ((SLOT(self, h, 3) == 0 || ghost_g < (size_t)SLOT(self, h, 3) || ghost_g > (size_t)SLOT(self, h, 3) + 4) && (SLOT(self, h, 4) == 0 || ghost_g < (size_t)SLOT(self, h, 4) || ghost_g > (size_t)SLOT(self, h, 4) + 4)))
+__CPROVER_assigns(self->grid_bottom, self->grid_top, self->grid_current, self->huge_holes, __CPROVER_object_upto(self->medium_hole_list, sizeof(self->medium_hole_list)))
+__CPROVER_assigns(self->num_small_holes, self->num_small_slots, self->num_grid_holes, self->num_grid_slots, self->num_huge_holes, self->num_huge_slots, self->num_medium_slots, __CPROVER_object_upto(self->num_medium_holes, sizeof(self->num_medium_holes)))
+__CPROVER_assigns(__CPROVER_object_whole(self->data))
+ENSURES(no_list_head_refers_to_the_removed_hole, NO_HEAD_IS(self, h))
+ENSURES(boundary_tags_untouched, self->data[h] == __CPROVER_old(self->data[h]) && self->data[h + HS(self, h) - 1] == __CPROVER_old(self->data[h + HS(self, h) - 1]))
+ENSURES(live_slots_are_never_altered, self->data[ghost_g] == __CPROVER_old(self->data[ghost_g]))
+ENSURES(predecessor_skips_the_removed_hole, !(IS_MEDIUM(self, h) || IS_HUGE(self, h) || (IN_GRID(self, h) && !IS_INDEX(self, h))) || __CPROVER_old(SLOT(self, h, 1)) == 0 || SLOT(self, __CPROVER_old(SLOT(self, h, 1)), 2) == __CPROVER_old(SLOT(self, h, 2)))
+ENSURES(successor_skips_the_removed_hole, !(IS_MEDIUM(self, h) || IS_HUGE(self, h) || (IN_GRID(self, h) && !IS_INDEX(self, h))) || __CPROVER_old(SLOT(self, h, 2)) == 0 || SLOT(self, __CPROVER_old(SLOT(self, h, 2)), 1) == __CPROVER_old(SLOT(self, h, 1)))
+ENSURES(arena_extent_untouched, self->last_used_slot == __CPROVER_old(self->last_used_slot))
+;
